@@ -249,7 +249,10 @@ def ma_batch(agent, spec, n, seed, dones=None):
             else:
                 ac[a] = sp.sample_action(s, None, rng)
         r = {a: float(rng.normal()) for a in ids}
-        d = {a: bool(dones[i]) if dones is not None else bool(rng.integers(0, 2)) for a in ids}
+        if dones is not None and isinstance(dones[i], (list, tuple)):  # per-agent flags: dones[row][agent]
+            d = {a: bool(dones[i][j]) for j, a in enumerate(ids)}
+        else:
+            d = {a: bool(dones[i]) if dones is not None else bool(rng.integers(0, 2)) for a in ids}
         buf.save_to_memory(o, ac, r, no, d, is_vectorised=False)
     # deterministic order: read rows in insertion order
     exps = list(buf.memory)
